@@ -1,0 +1,47 @@
+//go:build verif
+// +build verif
+
+package util
+
+import (
+	"sync/atomic"
+	"time"
+)
+
+var (
+	verifStepFn  atomic.Value // func(string)
+	verifSleepFn atomic.Value // func(time.Duration)
+)
+
+// verifStep marks a point between two atomic steps of the resource pool. With the verif
+// build tag a test harness may install a callback that parks, yields or records there.
+func verifStep(name string) {
+	if f, ok := verifStepFn.Load().(func(string)); ok && f != nil {
+		f(name)
+	}
+}
+
+// VerifSetStep installs (or, with nil, removes) the step callback.
+func VerifSetStep(f func(string)) {
+	if f == nil {
+		f = func(string) {}
+	}
+	verifStepFn.Store(f)
+}
+
+// twSleep is the time wheel's tick wait; a harness may take ownership of ticks.
+func twSleep(d time.Duration) {
+	if f, ok := verifSleepFn.Load().(func(time.Duration)); ok && f != nil {
+		f(d)
+		return
+	}
+	time.Sleep(d)
+}
+
+// VerifSetSleep installs (or, with nil, removes) the tick wait of the time wheel.
+func VerifSetSleep(f func(time.Duration)) {
+	if f == nil {
+		f = func(d time.Duration) { time.Sleep(d) }
+	}
+	verifSleepFn.Store(f)
+}
